@@ -19,6 +19,9 @@
 #include "weave_alignment.h"
 /* #include "weave_alignment.h" */
 
+#ifdef KALIGN_VERIF
+#include "kalign_verif.h"
+#endif
 #define ALN_RUN_IMPORT
 #include "aln_run.h"
 
@@ -127,6 +130,9 @@ int do_align(struct msa* msa,struct aln_tasks* t,struct aln_mem* m, int task_id)
         a = t->list[task_id]->a;
         b = t->list[task_id]->b;
         c = t->list[task_id]->c;
+#ifdef KALIGN_VERIF
+        kv_merge_begin(msa, t, m, task_id);
+#endif
 
         if(msa->nsip[a] == 1){
                 m->len_a = msa->sequences[a]->len;//  aln->sl[a];
@@ -269,6 +275,9 @@ int do_align(struct msa* msa,struct aln_tasks* t,struct aln_mem* m, int task_id)
                 msa->sip[c][g] = msa->sip[b][j];
                 g++;
         }
+#ifdef KALIGN_VERIF
+        kv_merge_end(msa, t, m, task_id);
+#endif
 
         return OK;
 ERROR:
